@@ -54,41 +54,11 @@ def run(prog: Program, col: Collector, tier: str, refs: Optional[Refs] = None, c
     # substitution collections by role: the parameter in the position of the `subs` field of Subs in rules registered for
     # Subs, the second parameter of every `eager_subs` method, of `substitute`, of the Subs constructor and metaclass; and
     # locals derived from them by copy constructors / comprehensions
-    subs_params: Dict[str, Set[str]] = {}
-    subs_tc = cat.term_classes.get("funsor.terms.Subs")
-    subs_idx = subs_tc.fields.index("subs") if subs_tc and "subs" in subs_tc.fields else 1
-    for r in cat.registrations:
-        if r.target is not None and r.pattern and isinstance(r.pattern[0], (ast.Name, ast.Attribute)) and refs.resolve(r.pattern[0]) == "funsor.terms.Subs":
-            pos = r.target.positional
-            off = 1 if r.registry.startswith("funsor.") and len(pos) == len(subs_tc.fields) + 1 else 0
-            if len(pos) > subs_idx + off:
-                subs_params.setdefault(r.target.fq, set()).add(pos[subs_idx + off])
+    colls = _subs_collections(prog, refs, cat)
     for f in prog.funcs.values():
-        if f.name == "eager_subs" and f.cls is not None and len(f.positional) >= 2:
-            subs_params.setdefault(f.fq, set()).add(f.positional[1])
-    for fq, idx in (("funsor.terms::substitute", 1), ("funsor.terms::Subs.__init__", 2), ("funsor.terms::SubsMeta.__call__", 2), ("funsor.terms::Funsor.eager_subs", 1)):
-        f0 = prog.funcs.get(fq)
-        if f0 is not None and len(f0.positional) > idx:
-            subs_params.setdefault(fq, set()).add(f0.positional[idx])
-    for f in prog.funcs.values():
-        if isinstance(f.node, ast.Lambda) or f.fq not in subs_params:
+        if isinstance(f.node, ast.Lambda) or f.fq not in colls:
             continue
-        coll = set(subs_params[f.fq])
-        for _ in range(3):
-            for n in walk_no_nested(f.node):
-                if isinstance(n, ast.Assign) and len(n.targets) == 1 and isinstance(n.targets[0], ast.Name):
-                    v = n.value
-                    src = None
-                    if isinstance(v, ast.Call) and isinstance(v.func, ast.Name) and v.func.id in ("OrderedDict", "dict", "tuple", "list") and v.args:
-                        src = v.args[0]
-                    if isinstance(src, (ast.GeneratorExp, ast.ListComp)):
-                        src = src.generators[0].iter
-                    if isinstance(v, (ast.GeneratorExp, ast.ListComp, ast.DictComp)):
-                        src = v.generators[0].iter
-                    if isinstance(src, ast.Call) and isinstance(src.func, ast.Attribute) and src.func.attr == "items":
-                        src = src.func.value
-                    if isinstance(src, ast.Name) and src.id in coll:
-                        coll.add(n.targets[0].id)
+        coll = colls[f.fq]
         for lp in [n for n in walk_no_nested(f.node) if isinstance(n, ast.For)]:
             # a loop over (name, value) pairs of a substitution: target is a 2-tuple, iterable is a name that looks like a
             # substitution collection by role (parameter called like the Subs field, or `.items()` of one)
@@ -150,6 +120,22 @@ def run(prog: Program, col: Collector, tier: str, refs: Optional[Refs] = None, c
     col.check(filt, f"{sm.fq}::pairs filtered by arg.inputs", "only pairs whose key is an input of the argument are kept",
               "the Subs metaclass no longer drops pairs whose key is not an input of the argument", sm.loc())
 
+    # ---------------------------------------------------------------- R04.4
+    col.rule("R04.4", "a guard over the pairs of a substitution that drops or narrows pairs is universal", floor=2)
+    _quantified_guards(prog, col, refs, cat, colls)
+
+    # ---------------------------------------------------------------- R04.5
+    col.rule("R04.5", "the Number and the Tensor branch of an eager_subs compute the same function of the index data", floor=1)
+    _ground_index_siblings(prog, col, refs, cat)
+
+    # ---------------------------------------------------------------- R04.6
+    col.rule("R04.6", "a stage of a staged substitution whose values may be open checks for clashes with the pairs applied after it", floor=2)
+    _staging(prog, col, refs, cat, colls)
+
+    # ---------------------------------------------------------------- R04.7
+    col.rule("R04.7", "keys are removed for all pairs before names are added for any pair (no interleaved delete / insert)", floor=1)
+    _interleaved_delete_insert(prog, col, refs, cat, colls)
+
     # ---------------------------------------------------------------- R04.3
     col.rule("R04.3", "Subs declares f's unsubstituted inputs plus the inputs of the substituted values", floor=3)
     si = require_func(prog, "funsor.terms::Subs.__init__")
@@ -184,3 +170,357 @@ def run(prog: Program, col: Collector, tier: str, refs: Optional[Refs] = None, c
         col.check(max(d.lineno for d in dels) < min(a.lineno for a in adds), f"{si.fq}::remove before add", "keys are removed before value inputs are added (f(x=x+1) keeps x)",
                   "value inputs are added before the keys are removed: an input of a value that has the name of a substituted key is deleted again (f(x=x+1) loses x)", si.loc(adds[0]))
     return col
+
+
+# ---------------------------------------------------------------------- substitution collections by role
+def _derive(f: Func, coll: Set[str]) -> Set[str]:
+    coll = set(coll)
+    for _ in range(4):
+        before = len(coll)
+        for n in walk_no_nested(f.node):
+            if isinstance(n, ast.Assign) and len(n.targets) == 1 and isinstance(n.targets[0], ast.Name):
+                v = n.value
+                src = None
+                if isinstance(v, ast.Call) and isinstance(v.func, ast.Name) and v.func.id in ("OrderedDict", "dict", "tuple", "list") and v.args:
+                    src = v.args[0]
+                if isinstance(src, (ast.GeneratorExp, ast.ListComp)):
+                    src = src.generators[0].iter
+                if isinstance(v, (ast.GeneratorExp, ast.ListComp, ast.DictComp)):
+                    src = v.generators[0].iter
+                if isinstance(src, ast.Call) and isinstance(src.func, ast.Attribute) and src.func.attr == "items":
+                    src = src.func.value
+                if isinstance(src, ast.Name) and src.id in coll:
+                    coll.add(n.targets[0].id)
+            # M[k] = ... inside a loop over the pairs: M is keyed by the substituted names
+            if isinstance(n, ast.For) and isinstance(n.target, ast.Tuple) and n.target.elts and isinstance(n.target.elts[0], ast.Name):
+                it = n.iter
+                base = it.func.value if isinstance(it, ast.Call) and isinstance(it.func, ast.Attribute) and it.func.attr == "items" else it
+                if isinstance(base, ast.Name) and base.id in coll:
+                    k = n.target.elts[0].id
+                    for st in ast.walk(n):
+                        if isinstance(st, ast.Assign):
+                            for t in st.targets:
+                                if isinstance(t, ast.Subscript) and isinstance(t.value, ast.Name) and isinstance(t.slice, ast.Name) and t.slice.id == k:
+                                    coll.add(t.value.id)
+        if len(coll) == before:
+            break
+    return coll
+
+
+def _subs_collections(prog: Program, refs: Refs, cat: Catalogue) -> Dict[str, Set[str]]:
+    """function fq -> local names that hold (part of) a substitution: the parameter in the position of the `subs` field of Subs in
+    rules registered for Subs, the second parameter of every `eager_subs` method, of `substitute`, of the Subs constructor and
+    metaclass; locals derived from them by copy constructors / comprehensions / keyed stores; and the parameters of helper
+    methods that receive such a local (the stages of a staged eager_subs)."""
+    subs_params: Dict[str, Set[str]] = {}
+    subs_tc = cat.term_classes.get("funsor.terms.Subs")
+    subs_idx = subs_tc.fields.index("subs") if subs_tc and "subs" in subs_tc.fields else 1
+    for r in cat.registrations:
+        if r.target is not None and r.pattern and isinstance(r.pattern[0], (ast.Name, ast.Attribute)) and refs.resolve(r.pattern[0]) == "funsor.terms.Subs":
+            pos = r.target.positional
+            off = 1 if r.registry.startswith("funsor.") and len(pos) == len(subs_tc.fields) + 1 else 0
+            if len(pos) > subs_idx + off:
+                subs_params.setdefault(r.target.fq, set()).add(pos[subs_idx + off])
+    for f in prog.funcs.values():
+        if f.name == "eager_subs" and f.cls is not None and len(f.positional) >= 2:
+            subs_params.setdefault(f.fq, set()).add(f.positional[1])
+    for fq, idx in (("funsor.terms::substitute", 1), ("funsor.terms::Subs.__init__", 2), ("funsor.terms::SubsMeta.__call__", 2), ("funsor.terms::Funsor.eager_subs", 1)):
+        f0 = prog.funcs.get(fq)
+        if f0 is not None and len(f0.positional) > idx:
+            subs_params.setdefault(fq, set()).add(f0.positional[idx])
+    colls: Dict[str, Set[str]] = {}
+    work = list(subs_params)
+    while work:
+        fq = work.pop()
+        f = prog.funcs.get(fq)
+        if f is None or isinstance(f.node, ast.Lambda):
+            continue
+        coll = _derive(f, subs_params[fq])
+        colls[fq] = coll
+        if f.cls is None:
+            continue
+        selfn = f.positional[0] if f.positional else None
+        for c in walk_no_nested(f.node):
+            if isinstance(c, ast.Call) and isinstance(c.func, ast.Attribute) and isinstance(c.func.value, ast.Name) and c.func.value.id == selfn:
+                m = prog.find_method(f.cls.fq, c.func.attr)
+                if m is None or m.fq == fq:
+                    continue
+                for i, a in enumerate(c.args):
+                    names = {x.id for x in ast.walk(a) if isinstance(x, ast.Name)}
+                    pure = all(isinstance(x, (ast.Name, ast.BinOp, ast.Add, ast.Load)) for x in ast.walk(a))
+                    if names and names <= coll and pure and i + 1 < len(m.positional):
+                        pn = m.positional[i + 1]
+                        if pn not in subs_params.setdefault(m.fq, set()):
+                            subs_params[m.fq].add(pn)
+                            work.append(m.fq)
+    return colls
+
+
+# ---------------------------------------------------------------------- R04.4
+def _quantifier(test: ast.AST, coll: Set[str]):
+    """(quantifier, positive?, key variable, container expression) of `any/all(<key> [not] in <E> for <key>, _ in <S>)`, looking
+    through an outer `not`; None when the test has another form."""
+    neg = False
+    while isinstance(test, ast.UnaryOp) and isinstance(test.op, ast.Not):
+        neg = not neg
+        test = test.operand
+    if not (isinstance(test, ast.Call) and isinstance(test.func, ast.Name) and test.func.id in ("any", "all") and len(test.args) == 1):
+        return None
+    g = test.args[0]
+    if not (isinstance(g, (ast.GeneratorExp, ast.ListComp)) and len(g.generators) == 1 and not g.generators[0].ifs):
+        return None
+    gen = g.generators[0]
+    it = gen.iter
+    base = it.func.value if isinstance(it, ast.Call) and isinstance(it.func, ast.Attribute) and it.func.attr in ("items", "keys") else it
+    if not (isinstance(base, ast.Name) and base.id in coll):
+        return None
+    key = gen.target.elts[0] if isinstance(gen.target, ast.Tuple) and gen.target.elts else gen.target
+    if not isinstance(key, ast.Name):
+        return None
+    e = g.elt
+    pos = True
+    while isinstance(e, ast.UnaryOp) and isinstance(e.op, ast.Not):
+        pos = not pos
+        e = e.operand
+    if not (isinstance(e, ast.Compare) and len(e.ops) == 1 and isinstance(e.ops[0], (ast.In, ast.NotIn)) and isinstance(e.left, ast.Name) and e.left.id == key.id):
+        return None
+    if isinstance(e.ops[0], ast.NotIn):
+        pos = not pos
+    q = test.func.id
+    if neg:  # not any(p) == all(not p); not all(p) == any(not p)
+        q = "all" if q == "any" else "any"
+        pos = not pos
+    return q, pos, base.id, e.comparators[0]
+
+
+def _dual(q, pos):
+    return ("all" if q == "any" else "any"), (not pos)
+
+
+def _quantified_guards(prog: Program, col: Collector, refs: Refs, cat: Catalogue, colls: Dict[str, Set[str]]):
+    n = 0
+    for fq, coll in sorted(colls.items()):
+        f = prog.funcs[fq]
+        for node in walk_no_nested(f.node):
+            if not isinstance(node, (ast.If, ast.IfExp)):
+                continue
+            qi = _quantifier(node.test, coll)
+            if qi is None:
+                continue
+            q, pos, S, E = qi
+            if isinstance(node, ast.IfExp):
+                branches = [("true", [node.body]), ("false", [node.orelse])]
+            else:
+                branches = [("true", node.body), ("false", node.orelse)]
+                # `if T: return ...` followed by the rest of the block: the rest is the false branch
+                if not node.orelse and node.body and isinstance(node.body[-1], (ast.Return, ast.Raise, ast.Continue)):
+                    par = f.module.parent.get(node)
+                    for fld in ("body", "orelse", "finalbody"):
+                        b = getattr(par, fld, None)
+                        if isinstance(b, list) and node in b:
+                            branches[1] = ("false", b[b.index(node) + 1:])
+            for which, body in branches:
+                cq, cpos = (q, pos) if which == "true" else _dual(q, pos)
+                body_mod = ast.Module(body=[x if isinstance(x, ast.stmt) else ast.Expr(value=x) for x in body], type_ignores=[])
+                construct = f"{f.fq}::{norm(node.test)[:80]}::{which}"
+                # (A) the whole collection is handed to a routine that only handles the names in E's owner (X.eager_subs(S), E = X.fresh)
+                if isinstance(E, ast.Attribute) and E.attr == "fresh":
+                    owner = norm(E.value)
+                    handed = [c for c in ast.walk(body_mod) if isinstance(c, ast.Call) and isinstance(c.func, ast.Attribute) and c.func.attr == "eager_subs"
+                              and norm(c.func.value) == owner and len(c.args) == 1 and isinstance(c.args[0], ast.Name) and c.args[0].id == S]
+                    if handed:
+                        n += 1
+                        col.check((cq, cpos) == ("all", True), construct,
+                                  f"all pairs are handed to {owner}.eager_subs only when every key is one of its fresh names",
+                                  f"all pairs are handed to {owner}.eager_subs although only {'some key is' if cq == 'any' else 'not every key is'} known to be one of its fresh names: "
+                                  "eager_subs of a term with fresh names handles those names only, so the other pairs are silently dropped", f.loc(handed[0]))
+                # (B) an operand passes through unsubstituted: only when none of the keys is among its inputs
+                if isinstance(E, ast.Attribute) and E.attr == "inputs" and isinstance(E.value, ast.Name):
+                    X = E.value.id
+                    passes = (isinstance(node, ast.IfExp) and isinstance(body[0], ast.Name) and body[0].id == X) or \
+                        (isinstance(node, ast.If) and any(isinstance(st, ast.Return) and isinstance(st.value, ast.Name) and st.value.id == X for st in body))
+                    if passes:
+                        n += 1
+                        col.check((cq, cpos) == ("all", False), construct,
+                                  f"`{X}` is left unsubstituted only when no key is among its inputs",
+                                  f"`{X}` is left unsubstituted whenever {'some key is missing from' if (cq, cpos) == ('any', False) else 'the guard fails for'} its inputs: "
+                                  "pairs whose key it does mention are dropped, so the substituted names stay free in the result", f.loc(node))
+    col.cur.analysed["quantified_guards"] = n
+
+
+# ---------------------------------------------------------------------- R04.5
+def _poly(e: ast.AST):
+    """canonical form of an expression modulo commutativity / associativity of + and *: frozenset-free nested sorted tuples"""
+    if isinstance(e, ast.BinOp) and isinstance(e.op, ast.Add):
+        def terms(x):
+            return terms(x.left) + terms(x.right) if isinstance(x, ast.BinOp) and isinstance(x.op, ast.Add) else [x]
+        return ("+",) + tuple(sorted(repr(_poly(t)) for t in terms(e)))
+    if isinstance(e, ast.BinOp) and isinstance(e.op, ast.Mult):
+        def facs(x):
+            return facs(x.left) + facs(x.right) if isinstance(x, ast.BinOp) and isinstance(x.op, ast.Mult) else [x]
+        return ("*",) + tuple(sorted(repr(_poly(t)) for t in facs(e)))
+    return ("atom", norm(e))
+
+
+def _ground_index_siblings(prog: Program, col: Collector, refs: Refs, cat: Catalogue):
+    n = 0
+    for f in prog.funcs.values():
+        if f.name != "eager_subs" or f.cls is None:
+            continue
+
+        def kind(test):
+            """('Number'|'Tensor', var) for isinstance(v, Number) / isinstance(v, Tensor) / type(v).__name__ == 'Tensor'"""
+            if isinstance(test, ast.Call) and isinstance(test.func, ast.Name) and test.func.id == "isinstance" and len(test.args) == 2 and isinstance(test.args[0], ast.Name):
+                r = refs.resolve(test.args[1]) if isinstance(test.args[1], (ast.Name, ast.Attribute)) else None
+                if r in ("funsor.terms.Number", "funsor.tensor.Tensor"):
+                    return r.rsplit(".", 1)[-1], test.args[0].id
+            if isinstance(test, ast.Compare) and len(test.ops) == 1 and isinstance(test.ops[0], ast.Eq) and isinstance(test.comparators[0], ast.Constant) \
+                    and test.comparators[0].value in ("Tensor", "Number"):
+                l = test.left
+                if isinstance(l, ast.Attribute) and l.attr == "__name__" and isinstance(l.value, ast.Call) and isinstance(l.value.func, ast.Name) and l.value.func.id == "type" \
+                        and l.value.args and isinstance(l.value.args[0], ast.Name):
+                    return test.comparators[0].value, l.value.args[0].id
+            return None
+
+        found = {}
+        for node in walk_no_nested(f.node):
+            if isinstance(node, ast.If):
+                k = kind(node.test)
+                if k is None:
+                    continue
+                v = k[1]
+                for st in node.body:
+                    if isinstance(st, ast.Assign) and len(st.targets) == 1 and isinstance(st.targets[0], ast.Name) \
+                            and any(isinstance(x, ast.Attribute) and x.attr == "data" and isinstance(x.value, ast.Name) and x.value.id == v for x in ast.walk(st.value)):
+                        found.setdefault((v, st.targets[0].id), {})[k[0]] = (st, node)
+        for (v, tgt), d in found.items():
+            if "Number" in d and "Tensor" in d:
+                n += 1
+                a, b = d["Number"][0], d["Tensor"][0]
+                same = _poly(a.value) == _poly(b.value)
+                col.check(same, f"{f.fq}::{tgt} for Number / Tensor `{v}`",
+                          f"both ground-index branches compute `{norm(a.value)}`",
+                          f"the Number branch computes `{norm(a.value)}` but the Tensor branch computes `{norm(b.value)}`: substituting an index tensor does not denote the "
+                          "pointwise substitution of its elements", f.loc(b))
+    col.cur.analysed["ground_index_sibling_pairs"] = n
+
+
+# ---------------------------------------------------------------------- R04.6
+GROUND_VALUE_CLASSES = {"funsor.terms.Number", "funsor.tensor.Tensor", "funsor.terms.Slice"}
+
+
+def _staging(prog: Program, col: Collector, refs: Refs, cat: Catalogue, colls: Dict[str, Set[str]]):
+    """A staged eager_subs applies one class of pairs and wraps the result in Subs(result, remaining).  That is sequential
+    application; it equals the simultaneous substitution only if no name introduced by a value of the stage is a key of the
+    remaining pairs.  Ground values (Number / Tensor / Slice) introduce batch names only; for a stage whose values may be open
+    terms the stage must test for the clash (and raise or stay lazy)."""
+    n = 0
+    for fq, coll in sorted(colls.items()):
+        f = prog.funcs[fq]
+        if f.name != "eager_subs" or f.cls is None:
+            continue
+        selfn = f.positional[0]
+        defs = {}
+        for st in walk_no_nested(f.node):
+            if isinstance(st, ast.Assign) and len(st.targets) == 1 and isinstance(st.targets[0], ast.Name):
+                defs.setdefault(st.targets[0].id, []).append(st.value)
+        for c in walk_no_nested(f.node):
+            if not (isinstance(c, ast.Call) and isinstance(c.func, ast.Attribute) and isinstance(c.func.value, ast.Name) and c.func.value.id == selfn and len(c.args) == 2):
+                continue
+            m = prog.find_method(f.cls.fq, c.func.attr)
+            if m is None or len(m.positional) != 3:
+                continue
+            stage_arg, rem_arg = c.args
+            if not (isinstance(stage_arg, ast.Name) and stage_arg.id in coll):
+                continue
+            # is this a stage?  the callee returns Subs(<result>, <its last parameter>) on some path
+            remp = m.positional[2]
+            wraps = [x for x in ast.walk(m.node) if isinstance(x, ast.Call) and refs.resolve(x.func) == "funsor.terms.Subs" and len(x.args) == 2
+                     and isinstance(x.args[1], ast.Name) and x.args[1].id == remp]
+            if not wraps:
+                continue
+            n += 1
+            # value classes admitted by the filter that defines the stage's pairs
+            ground = None
+            for v in defs.get(stage_arg.id, []):
+                g = v.args[0] if isinstance(v, ast.Call) and v.args and isinstance(v.args[0], (ast.GeneratorExp, ast.ListComp)) else v
+                if isinstance(g, (ast.GeneratorExp, ast.ListComp)):
+                    classes = set()
+                    for cond in g.generators[0].ifs:
+                        for t in ast.walk(cond):
+                            if isinstance(t, ast.Call) and isinstance(t.func, ast.Name) and t.func.id == "isinstance" and len(t.args) == 2:
+                                par = f.module.parent.get(t)
+                                negated = isinstance(par, ast.UnaryOp) and isinstance(par.op, ast.Not)
+                                elts = t.args[1].elts if isinstance(t.args[1], ast.Tuple) else [t.args[1]]
+                                if not negated:
+                                    classes |= {refs.resolve(x) for x in elts if isinstance(x, (ast.Name, ast.Attribute))}
+                    positive = [cond for cond in g.generators[0].ifs if isinstance(cond, ast.Call) and isinstance(cond.func, ast.Name) and cond.func.id == "isinstance"]
+                    ground = bool(positive) and bool(classes) and classes <= GROUND_VALUE_CLASSES
+            construct = f"{m.fq}::stage applied before `{norm(rem_arg)}`"
+            if ground:
+                col.ok(construct, f"the values of `{stage_arg.id}` are ground (Number / Tensor / Slice): they introduce no name a later pair could rewrite", m.loc())
+                continue
+            # open values: look for a clash test in the stage: an `if` that raises / stays lazy and depends on both the stage's pairs
+            # and (the remaining pairs or the term's own inputs)
+            subsp = m.positional[1]
+            from ..dataflow import param_deps
+            guard = None
+            from ..cfg import CFG
+            mcfg = CFG(m.node)
+            for node in walk_no_nested(m.node):
+                if not isinstance(node, ast.If):
+                    continue
+                exits = any(isinstance(x, ast.Raise) for st in node.body for x in ast.walk(st)) or \
+                    any(isinstance(st, ast.Return) and isinstance(st.value, ast.Call) and norm(st.value.func).endswith("reflect.interpret") for st in node.body)
+                if not exits:
+                    continue
+                # flow-sensitive: which parameters can the test depend on through the definitions that reach it
+                names = param_deps(m, node.test, node, cfg=mcfg)
+                if subsp in names and (remp in names or m.positional[0] in names):
+                    guard = node
+            col.check(guard is not None, construct,
+                      "the stage tests its values against the pairs applied afterwards / the term's inputs and raises or stays lazy on a clash",
+                      f"the values of `{stage_arg.id}` may be open terms, and the stage wraps its result in Subs(result, {remp}) without testing that no name they introduce is a key "
+                      f"of `{remp}`: the later pairs rewrite variables that came in with this stage's values (g(x=2*y, y=e) evaluates e twice), which is sequential, "
+                      "not simultaneous, substitution", m.loc(wraps[0]))
+    col.cur.analysed["substitution_stages"] = n
+
+
+# ---------------------------------------------------------------------- R04.7
+def _interleaved_delete_insert(prog: Program, col: Collector, refs: Refs, cat: Catalogue, colls: Dict[str, Set[str]]):
+    n = 0
+    for fq, coll in sorted(colls.items()):
+        f = prog.funcs[fq]
+        for lp in [x for x in walk_no_nested(f.node) if isinstance(x, ast.For)]:
+            it = lp.iter
+            base = it.func.value if isinstance(it, ast.Call) and isinstance(it.func, ast.Attribute) and it.func.attr in ("items", "keys") else it
+            if not (isinstance(base, ast.Name) and base.id in coll):
+                continue
+            key = lp.target.elts[0] if isinstance(lp.target, ast.Tuple) and lp.target.elts else lp.target
+            if not isinstance(key, ast.Name):
+                continue
+            n += 1
+            dels, ins = {}, {}
+            for x in ast.walk(lp):
+                if isinstance(x, ast.Delete):
+                    for t in x.targets:
+                        if isinstance(t, ast.Subscript) and isinstance(t.value, ast.Name) and isinstance(t.slice, ast.Name) and t.slice.id == key.id:
+                            dels[t.value.id] = x
+                if isinstance(x, ast.Call) and isinstance(x.func, ast.Attribute) and x.func.attr == "pop" and isinstance(x.func.value, ast.Name) \
+                        and x.args and isinstance(x.args[0], ast.Name) and x.args[0].id == key.id:
+                    dels[x.func.value.id] = x
+                if isinstance(x, ast.Assign):
+                    for t in x.targets:
+                        if isinstance(t, ast.Subscript) and isinstance(t.value, ast.Name) and not (isinstance(t.slice, ast.Name) and t.slice.id == key.id):
+                            ins[t.value.id] = x
+                if isinstance(x, ast.Call) and isinstance(x.func, ast.Attribute) and x.func.attr in ("update", "setdefault") and isinstance(x.func.value, ast.Name):
+                    ins[x.func.value.id] = x
+            both = sorted(set(dels) & set(ins))
+            construct = f"{f.fq}::for {norm(lp.target)} in {norm(lp.iter)}"
+            if both:
+                M = both[0]
+                col.violation(construct, f"the loop over the pairs both removes the current key from `{M}` and adds names for the current value to `{M}`: the key of a later pair "
+                              "deletes a name added for an earlier pair (f(x=2*y, y=3*x) loses y), so the pairs are not applied at once", f.loc(ins[M]))
+            else:
+                col.ok(construct, "no mapping has the current key removed and other names added in the same pass", f.loc(lp), nontrivial=False)
+    col.cur.analysed["loops_checked_for_interleaving"] = n
